@@ -349,6 +349,50 @@ func crafted() []string {
 	}
 	mk(m7, t7, fga.Req{Obj: "doc:a", Rel: "viewer", User: "user:x"})
 	mk(m7, t7, fga.Req{Obj: "doc:a", Rel: "owner", User: "user:x"})
+	// a tuple left over from an earlier model (a userset in what is now a tupleset relation): the default engine ignores it
+	// (ValidateTupleForRead), the weighted-graph engine reads it through the `folder:` prefix filter and follows it
+	m8 := &fga.Model{Types: []*fga.TypeDef{{Name: "user"},
+		{Name: "folder", Rels: []*fga.RelDef{{Name: "viewer", Rewrite: this(), Restrs: []fga.Restr{u}}}},
+		{Name: "doc", Rels: []*fga.RelDef{
+			{Name: "parent", Rewrite: this(), Restrs: []fga.Restr{{Typ: "folder"}}},
+			{Name: "can", Rewrite: ttu("parent", "viewer")},
+		}}}}
+	mk(m8, []fga.Tuple{{Obj: "doc:a", Rel: "parent", User: "folder:b#viewer"}, {Obj: "folder:b", Rel: "viewer", User: "user:x"}},
+		fga.Req{Obj: "doc:a", Rel: "can", User: "user:x"})
+	// a divergence the detector does not report: the userset alias is a union that contains a computed userset
+	m9 := &fga.Model{Types: []*fga.TypeDef{{Name: "user"},
+		{Name: "group", Rels: []*fga.RelDef{
+			{Name: "owner", Rewrite: this(), Restrs: []fga.Restr{u}},
+			{Name: "member", Rewrite: un(this(), cu("owner")), Restrs: []fga.Restr{u}},
+		}},
+		{Name: "folder", Rels: []*fga.RelDef{
+			{Name: "editor", Rewrite: this(), Restrs: []fga.Restr{u}},
+			{Name: "viewer", Rewrite: un(this(), cu("editor")), Restrs: []fga.Restr{u, {Typ: "group", Rel: "member"}}},
+		}}}}
+	mk(m9, []fga.Tuple{{Obj: "folder:a", Rel: "viewer", User: "group:a#member"}},
+		fga.Req{Obj: "folder:a", Rel: "viewer", User: "group:a#owner"})
+	// the filtered iterator swallows the evaluation error of the first tuple because the second one passed
+	c1 := []*fga.CondDef{{Name: "c1", Param: "x", Op: "lt", Const: 10}}
+	m10 := &fga.Model{Types: []*fga.TypeDef{{Name: "user"},
+		{Name: "group", Rels: []*fga.RelDef{{Name: "member", Rewrite: this(), Restrs: []fga.Restr{u}}}},
+		{Name: "doc", Rels: []*fga.RelDef{{Name: "viewer", Rewrite: this(),
+			Restrs: []fga.Restr{{Typ: "group", Rel: "member", Cond: "c1"}, {Typ: "group", Rel: "member"}}}}}},
+		Conds: c1}
+	mk(m10, []fga.Tuple{
+		{Obj: "doc:a", Rel: "viewer", User: "group:a#member", Cond: "c1"}, {Obj: "doc:a", Rel: "viewer", User: "group:b#member"},
+		{Obj: "group:a", Rel: "member", User: "user:x"},
+	}, fga.Req{Obj: "doc:a", Rel: "viewer", User: "user:x"})
+	// a conditioned tuple for `user:x` where the condition is declared for `user:*` only: the default engine's
+	// validateCondition accepts it (stored: honoured; contextual: request accepted), the weighted graph does not
+	m11 := &fga.Model{Types: []*fga.TypeDef{{Name: "user"},
+		{Name: "doc", Rels: []*fga.RelDef{{Name: "viewer", Rewrite: this(),
+			Restrs: []fga.Restr{u, {Typ: "user", Wild: true, Cond: "c1"}}}}}},
+		Conds: c1}
+	lax := fga.Tuple{Obj: "doc:a", Rel: "viewer", User: "user:x", Cond: "c1", Ctx: []fga.KV{{K: "x", V: 5}}}
+	mk(m11, []fga.Tuple{lax}, fga.Req{Obj: "doc:a", Rel: "viewer", User: "user:x"})
+	if ts, err := typesystem.NewAndValidate(context.Background(), m11.Proto(fgarun.ModelID)); err == nil {
+		out = append(out, caseLine(m11, ts, nil, []fga.Tuple{lax}, fga.Req{Obj: "doc:a", Rel: "viewer", User: "user:x"}))
+	}
 	// AND inside a tuple cycle: the weighted graph cannot be built -> fallback to the default engine
 	m5 := &fga.Model{Types: []*fga.TypeDef{{Name: "user"},
 		{Name: "group", Rels: []*fga.RelDef{
